@@ -86,8 +86,9 @@ Aspects(prev, o, ev) ==
      \cup (IF o.halt # (ev.h = 1) THEN {"halt"} ELSE {})
      \cup (IF MemBad(prev, o, ev.md) THEN {"mem"} ELSE {})
      \cup (IF Outs(o.pio) # Outs(ev.pio) THEN {"out"} ELSE {})
-     \cup (IF ~SameBag(o.rd, ev.rd) THEN {"rd"} ELSE {})
-     \cup (IF ~SameBag(o.wr, ev.wr) THEN {"wr"} ELSE {})
+     \* ("bare": the real memory object was attached without the recording wrapper - no access log)
+     \cup (IF "bare" \notin DOMAIN ev /\ ~SameBag(o.rd, ev.rd) THEN {"rd"} ELSE {})
+     \cup (IF "bare" \notin DOMAIN ev /\ ~SameBag(o.wr, ev.wr) THEN {"wr"} ELSE {})
      \cup (IF o.pio # ev.pio THEN {"pio"} ELSE {})
      \cup (IF <<o.hc[1] - prev.hc[1], o.hc[2] - prev.hc[2]>> # ev.hc THEN {"hc"} ELSE {})
      \cup (IF o.pend # PendOf(ev.pend) THEN {"pend"} ELSE {})
@@ -145,7 +146,8 @@ IsHangOfRun == Ev.e = "x" /\ Ev.what = "hang" /\ "run" \in DOMAIN Ev
 EvPanic ==
   /\ IsEv("x") /\ ~IsHangOfRun /\ UNCHANGED c /\ KeepSK
   /\ bad' = IF Len(bad) < MaxBad
-            THEN Append(bad, [line |-> l, asp |-> {"panic"}, tag |-> Ev.what, pc |-> 0, f |-> 0, u |-> 0]) ELSE bad
+            THEN Append(bad, [line |-> l, asp |-> IF Ev.what = "request-mutated" THEN {"mutated"} ELSE {"panic"},
+                              tag |-> Ev.what, pc |-> 0, f |-> 0, u |-> 0]) ELSE bad
   /\ cov' = Bump(cov, "REJECTED")
 
 \* C11: the FD form run from the IX/IY-exchanged state mirrors the DD form, with an
@@ -155,6 +157,8 @@ SwapIdx(a) == [i \in 1 .. 27 |-> CASE i = 17 -> a[19] [] i = 18 -> a[20] [] i = 
 MirrorOK(dd, fd) ==
   /\ fd.pre = SwapIdx(dd.pre) /\ fd.post = SwapIdx(dd.post) /\ fd.h = dd.h
   /\ fd.rd = dd.rd /\ fd.wr = dd.wr /\ fd.pio = dd.pio
+  \* no device saw the other index register changed at any access of the Step
+  /\ dd.moved = 0 /\ fd.moved = 0
 \* x2 = the same run with the other index register (positions i1, i2) changed
 NoInterf(x, x2, i1, i2) ==
   /\ x2.post[i1] = x2.pre[i1] /\ x2.post[i2] = x2.pre[i2]
@@ -194,7 +198,7 @@ RunAspects(prev, x, ev) ==
            THEN {"mem"} ELSE {})
      \cup (IF x.pio # ev.pio THEN {"pio"} ELSE {})
      \cup (IF Outs(x.pio) # Outs(ev.pio) THEN {"out"} ELSE {})
-     \cup (IF x.n # ev.nacc THEN {"nacc"} ELSE {})
+     \cup (IF "bare" \notin DOMAIN ev /\ x.n # ev.nacc THEN {"nacc"} ELSE {})
      \cup (IF "con" \in DOMAIN ev
              /\ (ev.con # [i \in 1 .. Len(SelectSeq(ev.pio, LAMBDA e : e[1] = 1 /\ e[2] = 0)) |->
                              SelectSeq(ev.pio, LAMBDA e : e[1] = 1 /\ e[2] = 0)[i][3]]
@@ -210,14 +214,19 @@ RunTarget == IF Ev.err = "ctx" THEN Ev.nacc ELSE -1     \* cancelled runs: stop 
 
 RunBegin ==
   /\ l <= Len(TraceLog) /\ Ev.e = "r" /\ ~rs.on /\ ~done
-  /\ rs' = [on |-> TRUE, S |-> {RunStart(c, SchedOf(Ev.sched))}, D |-> {}, fuel |-> RunFuel]
+  /\ rs' = [on |-> TRUE, S |-> {RunStartB(c, SchedOf(Ev.sched), BpOf(Ev),
+                                           IF Len(Ev.bpswap) = 0 THEN [at |-> 0]
+                                           ELSE [at |-> Ev.bpswap[1],
+                                                 set |-> {Ev.bpswap[i] : i \in 2 .. Len(Ev.bpswap)}])},
+            D |-> {}, fuel |-> RunFuel]
   /\ UNCHANGED <<l, c, bad, cov, done, slot, kf>>
 
 \* states still to be advanced: those short of the logged access count (cancelled run), or
 \* within reach of it (a branch of the specification's nondeterminism that has already made
 \* more bus accesses than the real run plus a margin can never match it and is dropped,
 \* which also bounds the expansion by the length of the real run)
-RunGo == IF RunTarget < 0 THEN {x \in rs.S : x.n < Ev.nacc + 64} ELSE {x \in rs.S : x.n < RunTarget}
+RunGo == IF RunTarget < 0 THEN (IF "bare" \in DOMAIN Ev THEN rs.S ELSE {x \in rs.S : x.n < Ev.nacc + 64})
+         ELSE {x \in rs.S : x.n < RunTarget}
 
 RunIter ==
   /\ rs.on /\ RunGo # {} /\ rs.fuel > 0
@@ -260,7 +269,9 @@ RunEnd ==
 HangFuel == 4000
 HangBegin ==
   /\ l <= Len(TraceLog) /\ IsHangOfRun /\ ~rs.on /\ ~done
-  /\ rs' = [on |-> TRUE, hang |-> TRUE, S |-> {RunStart(c, SchedOf(Ev.run.sched))}, D |-> {}, fuel |-> HangFuel]
+  /\ rs' = [on |-> TRUE, hang |-> TRUE,
+            S |-> {RunStartB(c, SchedOf(Ev.run.sched), {Ev.run.bp[i] : i \in 1 .. Len(Ev.run.bp)}, [at |-> 0])},
+            D |-> {}, fuel |-> HangFuel]
   /\ UNCHANGED <<l, c, bad, cov, done, slot, kf>>
 HangIter ==
   /\ rs.on /\ "hang" \in DOMAIN rs /\ rs.S # {} /\ rs.fuel > 0
